@@ -170,6 +170,11 @@ def run_pack(case, scratch, variant="asan", extra_args=(), env=None, preload=Non
         if g.get("nonrec"):
             line += b" -nonrecursive"
         line += b" src\n"
+        # explicit hard links next to the glob line, onto names the scan will produce (resolved after everything was collected)
+        pre_ = (g["prefix"] or b"").strip(b"/")
+        for k, tgt in enumerate(g.get("links") or []):
+            ll = b"link " + treemodel.pf_quote(b"/zz-explicit-link-%d" % k) + b" 0777 0 0 " + treemodel.pf_quote(b"/" + ((pre_ + b"/") if pre_ else b"") + tgt) + b"\n"
+            line = (ll + line) if k % 2 == 0 else (line + ll)
         lf = os.path.join(ind, "list.txt")
         with open(lf, "wb") as fh:
             fh.write(line)
